@@ -318,8 +318,8 @@ func exec(op string) string {
 
 // ---------------------------------------------------------------------------------------------
 
-var keyPool = []string{"a", "b", "c", "ab", "k1", "id", "A", "x"}
-var valPool = []string{"1", "2", "v", "xy", "0", "a", "b"}
+var keyPool = []string{"a", "b", "c", "ab", "k1", "id", "A", "x", "aa", "ba"}
+var valPool = []string{"1", "2", "v", "xy", "0", "a", "b", "a=1", "aa"}
 
 func genKeyRaw(r *vh.Rand, k string) string {
 	// the same key, possibly percent-encoded / plus-encoded in the raw query
@@ -383,9 +383,14 @@ func genQuery(r *vh.Rand) string {
 	return q
 }
 
-var hosts = []string{"example.org", "a.example.org", "www.example.com", "example.org:8080", "x", "org"}
-var paths = []string{"/", "/a", "/a/b", "/a/b/c", "/x.example.org/p/q", "/www.b.com/", "//a", "/a//b", "/service/shortcut/x", "/bfe/x", "/a.b/c"}
-var sufs = []string{"example.org", ".org", "org", "example.com", "x", ".example.org", "example.org:8080"}
+// several hosts contain the suffix text more than once (www.company.com / .com, org.example.org / org, x.x / x ...)
+var hosts = []string{"example.org", "a.example.org", "www.example.com", "example.org:8080", "x", "org",
+	"www.company.com", "org.example.org", "x.x", "com.com", "example.org.example.org", "a.orgx.org"}
+
+// several paths repeat their own prefix (/a/a/b, /bfe/bfe/x ...)
+var paths = []string{"/", "/a", "/a/b", "/a/b/c", "/x.example.org/p/q", "/www.b.com/", "//a", "/a//b", "/service/shortcut/x", "/bfe/x", "/a.b/c",
+	"/a/a/b", "/a/a", "/bfe/bfe/x", "/aa/a", "/x/x.example.org/x/q", "/a/b/a/b"}
+var sufs = []string{"example.org", ".org", "org", "example.com", "x", ".example.org", "example.org:8080", ".com", "com", ".net", ".x", "o"}
 var hdrNames = []string{"X-Bfe-A", "x-bfe-b", "X-BFE-Cc", "X-Other", "Referer", "x-bfe-a"}
 
 func pick(r *vh.Rand, xs []string) string { return xs[r.Intn(len(xs))] }
@@ -417,9 +422,9 @@ func genAction(r *vh.Rand, queryBias bool) string {
 	case 3:
 		return "PATH_SET:" + pick(r, paths)
 	case 4:
-		return "PATH_PREFIX_ADD:" + r.Pick("/bfe/", "bfe", "/", "/v1", "x/")
+		return "PATH_PREFIX_ADD:" + r.Pick("/bfe/", "bfe", "/", "/v1", "x/", "/a", "/a/")
 	case 5:
-		return "PATH_PREFIX_TRIM:" + r.Pick("/a", "/a/", "/service/shortcut/", "/", "a", "/a/b/c", "/x")
+		return "PATH_PREFIX_TRIM:" + r.Pick("/a", "/a/", "/service/shortcut/", "/", "a", "/a/b/c", "/x", "/a/a", "/bfe", "/a/b")
 	case 6:
 		return "REQ_HEADER_SET:" + pick(r, hdrNames) + "," + pick(r, valPool)
 	case 7:
@@ -431,7 +436,7 @@ func genAction(r *vh.Rand, queryBias bool) string {
 	case 10:
 		return "QUERY_DEL:" + genKeys(r)
 	case 11:
-		return "QUERY_RENAME:" + pick(r, keyPool) + "," + r.Pick("n", "a", "b", "zz")
+		return "QUERY_RENAME:" + pick(r, keyPool) + "," + r.Pick("n", "a", "b", "zz", "aa", "ab")
 	case 12:
 		return "QUERY_DEL_ALL_EXCEPT:" + genKeys(r)
 	case 13:
